@@ -528,7 +528,7 @@ def run_carrier(te, cls, declared, op, res, tr, step):
     for v, x in zip(values, got):
         if not isinstance(x, cls) or int(x) != v:
             return ("in-flow-value", f"{ename}Carrier: integer {v} came back as {x!r} (values {values})")
-        if v in declared and x is not getattr(cls, declared[v]):
+        if v in declared and x is not getattr(cls, declared[v], None):
             return ("in-flow-value", f"{ename}Carrier: declared ordinal {v} came back as {x!r}, not member {declared[v]}")
         if v not in declared and x.name != f"Unrecognized({v})":
             return ("in-flow-value", f"{ename}Carrier: undeclared integer {v} came back named {x.name!r}")
